@@ -102,6 +102,64 @@ Theorem C16_endpoint_limit_refuted_before_repair :
 Proof. exact endpoint_limit_refuted_pre. Qed.
 Print Assumptions C16_endpoint_limit_refuted_before_repair.
 
+(* a cancelled waiter gives away only a slot it owns.  cancelEndpoint decides by looking for the
+   request's channel in the queue; at that section, in EVERY reachable state (however long the
+   goroutine was delayed after its select took <-ctx.Done(), whatever the others did meanwhile),
+   the channel is queued exactly when the request owns no slot (CancelQ), and absent exactly when
+   a releaseEndpoint has handed it one (CancelG): then the request is among the slot owners that
+   processedCounter counts *)
+Theorem C16_cancel_section_inference : forall limit epl tr r,
+  let l := run (new_lim limit epl) tr in
+  st l r = CancelQ \/ st l r = CancelG ->
+  exists cnt q, tab l (keyof l r) = Some (cnt, q) /\
+    cnt = Z.of_nat (length (selK holds_ep (keyof l) (st l) (arr l) (keyof l r))) /\
+    q = selK waits_ep (keyof l) (st l) (arr l) (keyof l r) /\
+    (In r q <-> st l r = CancelQ) /\ (~ In r q <-> st l r = CancelG) /\
+    (st l r = CancelG -> In r (selK holds_ep (keyof l) (st l) (arr l) (keyof l r))).
+Proof. exact cancel_section_inference. Qed.
+Print Assumptions C16_cancel_section_inference.
+
+(* ... and in the second case its two sections (cancelEndpoint, releaseEndpoint) pass on exactly
+   that one slot: nothing changes in the first; in the second the head of the queue is granted and
+   the slot count stays, or -- nobody queued -- the count drops by one (entry deleted at 0); no
+   other request, no other path, not the semaphore changes; the request returns the error and the
+   accounting invariant holds again *)
+Theorem C16_cancel_granted_passes_own_slot : forall limit epl tr r,
+  let l := run (new_lim limit epl) tr in
+  st l r = CancelG ->
+  let l1 := step l (CancelSec r) in
+  let l2 := step l1 (ReleaseEp r) in
+  let k := keyof l r in
+  st l1 r = RelEp ErrEp /\ (forall x, x <> r -> st l1 x = st l x) /\ tab l1 = tab l /\
+  held l1 = held l /\ semq l1 = semq l /\
+  st l2 r = Done ErrEp /\ held l2 = held l /\ semq l2 = semq l /\
+  (forall k', k' <> k -> tab l2 k' = tab l k') /\
+  (exists cnt q, tab l k = Some (cnt, q) /\ 1 <= cnt /\ ~ In r q /\
+     match q with
+     | w :: rest => tab l2 k = Some (cnt, rest) /\ st l2 w = grant_ep (st l w) /\
+                    (forall x, x <> r -> x <> w -> st l2 x = st l x)
+     | [] => tab l2 k = (if cnt - 1 =? 0 then None else Some (cnt - 1, [])) /\
+             (forall x, x <> r -> st l2 x = st l x)
+     end) /\
+  Inv l2.
+Proof. exact cancel_granted_passes_own_slot. Qed.
+Print Assumptions C16_cancel_granted_passes_own_slot.
+
+(* the scheduler of the correspondence with delayed goroutines (Run.do_ev) performs only actions of
+   the model and none of a goroutine that is held back *)
+Theorem C16_delayed_schedule_is_a_run : forall fuel hold l,
+  exists tr, settle_hold fuel hold l = run l tr /\ forall a, In a tr -> mem (actor a) hold = false.
+Proof. exact settle_hold_skips. Qed.
+Print Assumptions C16_delayed_schedule_is_a_run.
+
+(* why the blind hand-over to the head of the queue is needed: a releaseEndpoint that skips queued
+   waiters whose context is already done (rest of the code unchanged) exceeds endpoint limit 1 *)
+Theorem C16_skipping_cancelled_waiters_refuted :
+  exists tr, let l := fold_left step_skip tr (new_lim 0 1) in
+    count_where (in_flight_on l 0%N) (arr l) > eplimit l.
+Proof. exact skip_cancelled_refuted. Qed.
+Print Assumptions C16_skipping_cancelled_waiters_refuted.
+
 (* non-vacuity: endpoint limit 1, total limit 2, two paths.  A, B, C arrive for path 0 and D for
    path 1; C is cancelled while queued (both select outcomes are exercised: B is granted while it
    is cancelling too).  The hypotheses of the theorems above are met along the way: a request
@@ -115,4 +173,16 @@ Example C16_instance :
   let l2 := run l [CancelSec 2; Finish 0; ReleaseTot 0; ReleaseEp 0; SeeGrant 1; AcquireTot 1; Finish 1; Finish 3;
                    ReleaseTot 1; ReleaseTot 3; ReleaseEp 3; ReleaseEp 1]%N in
   tab l2 0%N = None /\ tab l2 1%N = None /\ held l2 = 0 /\ st l2 1%N = Done Ok /\ st l2 2%N = Done ErrEp.
+Proof. vm_compute. repeat split. Qed.
+
+(* non-vacuity of the delayed-waiter theorems: limit 1, request 0 in flight, 1 and 2 queued; 1 is
+   cancelled and takes the ctx.Done branch (CancelQ), then 0 finishes and its releaseEndpoint hands
+   the slot to 1 (CancelG, 2 keeps waiting); 1's cancelEndpoint + releaseEndpoint pass it on to 2 *)
+Example C16_instance_delayed :
+  let tr := [Arrive 0 0; SeeGrant 0; AcquireTot 0; Arrive 1 0; Arrive 2 0; Cancel 1; SeeCancel 1;
+             Finish 0; ReleaseTot 0; ReleaseEp 0]%N in
+  let l := run (new_lim 0 1) tr in
+  st l 1%N = CancelG /\ st l 2%N = EpWait /\ tab l 0%N = Some (1, [2]%N) /\
+  let l2 := run l [CancelSec 1; ReleaseEp 1; SeeGrant 2; AcquireTot 2]%N in
+  st l2 1%N = Done ErrEp /\ st l2 2%N = InFlight /\ tab l2 0%N = Some (1, []).
 Proof. vm_compute. repeat split. Qed.
